@@ -84,6 +84,11 @@ def m_C01(tier):
             for b in directs:
                 km = 'str' if b != 'direct:dict' else 'default'
                 cfgs.append(C(mod, alg, None if alg in ('no', 'inf') else 2, False, km, b, nargs=2, spellings=1))
+    # long string arguments (keys longer than a file name) over the directory archive
+    for mod in MODULES:
+        for alg in (('lru', 'no') if tier == 'quick' else ALL):
+            for b in (('dir',) if tier == 'quick' else ('dir', 'direct:dir', 'dirjson', 'file', 'sql')):
+                cfgs.append(C(mod, alg, None if alg in ('no', 'inf') else 1, False, 'str', b, nargs=3, spellings=1, args='long'))
     # tuple results through pickle-based stores
     for alg in ('lru', 'mru'):
         cfgs.append(C('std', alg, 1, False, 'default', 'dict', result='tuple'))
@@ -229,7 +234,7 @@ def m_C02(tier):
                         if purge and backend != 'dict':
                             continue
                         cfgs.append(C(mod, alg, ms, purge, 'default', backend, init))
-    pers = ['file', 'dir', 'sql', 'filejson', 'filesrc', 'filesrcbare', 'dirsrc', 'dirjson'] if tier == 'thorough' else ['file', 'filesrcbare', 'sql']
+    pers = ['file', 'dir', 'sql', 'filejson', 'filesrc', 'filesrcbare', 'dirsrc', 'dirjson', 'dirjsonfast', 'dirfastmm'] if tier == 'thorough' else ['file', 'filesrcbare', 'sql', 'dirjsonfast']
     for mod in MODULES:
         for alg in (ALL if tier == 'thorough' else ('lru', 'no')):
             for b in pers:
@@ -255,7 +260,7 @@ def m_C07(tier):
                 for purge in ((False,) if alg == 'no' else (False, True)):
                     for init in ('empty', 'seeded_archive'):
                         cfgs.append(C(mod, alg, ms, purge, 'default', 'dict', init))
-    pers = ['file', 'dir', 'sql', 'filesrc', 'dirjson'] if tier == 'thorough' else ['dir', 'sql']
+    pers = ['file', 'dir', 'sql', 'filesrc', 'dirjson', 'filejson', 'dirjsonfast'] if tier == 'thorough' else ['dir', 'sql', 'filejson']
     for mod in MODULES:
         for alg in (BOUNDED + ('no',) if tier == 'thorough' else ('lfu', 'rr')):
             for b in pers:
@@ -409,7 +414,7 @@ def ev_for(prop, cfg, tier):
     if prop == 'C02':
         return base_events(n, sp, mgmt=True, raises=False) + [('redec',), ('raise', 0, 'Boom')]
     if prop == 'C07':
-        return base_events(n, sp, mgmt=True) + [('raise', 1, 'Boom'), ('aclear',)]
+        return base_events(n, sp, mgmt=True) + [('raise', 1, 'Boom'), ('aclear',), ('reclone',)]
     if prop == 'C15' and cfg.get('unkeyable'):
         return call_events(n, 1) + [('callu', 0), ('callu', 1), ('callu', 3), ('raiseu', 0), ('raiseu', 3), ('raise', 0, 'Boom'), ('clear',), ('clearks',), ('load',)]
     if prop == 'C15':
